@@ -167,6 +167,32 @@ theorem C12_nothing_invented (c : Cfg) (r : Req) (s : Nat) (hs : s < 400) (hv : 
   simp only [hn, if_false, Bool.and_eq_true, decide_eq_true_eq, List.isEmpty_iff] at h
   exact ⟨h.1.1, h.2⟩
 
+/-- "Only that request is affected": whatever a request did — including a panic before or after
+writing, through any stack — the responses to the requests that follow on the same server are the
+responses those requests would get on a fresh server: each is a function of its own request alone.
+(The server state of the model: the gzip writer pool, the templates buffer pool, the access log;
+the middleware chain is never written by a request.) -/
+theorem C12_panic_isolated (c : Cfg) (st : ServerState) (first : Req × Inner) (later : List (Req × Inner)) :
+    (serveAll c st (first :: later)).tail = later.map (fun q => serve c q.1 q.2) := by
+  rw [serveAll_eq]; rfl
+
+/-- … and for the request itself: the state earlier requests left does not show in its response. -/
+theorem C12_response_independent_of_state (c : Cfg) (r : Req) (i : Inner) (st st' : ServerState) :
+    (serveSt true c r i st).1 = (serveSt true c r i st').1 := by
+  rw [serveSt_resp, serveSt_resp]
+
+/-- What a request leaves behind differs from what it found only in benign components: every
+scratch object it took is back in its pool — also when the handler panicked — (a new one was
+made if the pool was empty), holding bytes that the next user clears; the access log grew by at
+most one entry.  Nothing else exists in the state. -/
+theorem C12_state_after (c : Cfg) (r : Req) (i : Inner) (st : ServerState) :
+    let st' := (serveSt true c r i st).2
+    (st'.tplPool.length = if c.templates then max 1 st.tplPool.length else st.tplPool.length) ∧
+    (st.gzPool.length ≤ st'.gzPool.length ∧ st'.gzPool.length ≤ max 1 st.gzPool.length) ∧
+    (st.logLines ≤ st'.logLines ∧ st'.logLines ≤ st.logLines + 1) := by
+  simp only [serveSt]
+  exact ⟨putBack_length _ _ _, putBack_bounds _ _ _, logAfter_bounds _ _⟩
+
 def isSubseq : List String → List String → Bool
   | [], _ => true
   | _ :: _, [] => false
@@ -216,6 +242,18 @@ example : Inner.ok (.ret 404 true) = true ∧ Inner.ok (.ret 0 false) = true ∧
     Inner.ok (.ret 0 true) = false ∧ Inner.ok (.ret 200 true) = false ∧
     Inner.ok (.write (some 7) [1] false .plain false) = false := by
   decide
+
+/-- test (the isolation theorem is about the clearing of pooled objects): on a server that did
+NOT clear them when taken, the body a panicking request left in the templates buffer would show up
+in the next response -/
+example :
+    let c : Cfg := { full with gzip := false, errors := none, log := false, header := false }
+    let st0 : ServerState := { gzPool := [], tplPool := [], logLines := 0 }
+    let st1 := (serveSt false c ⟨true, false⟩ (.write (some 200) [9] false .plain false) st0).2
+    (serveSt false c ⟨true, false⟩ (.write (some 200) [1] false .plain false) st1).1 ≠
+      serve c ⟨true, false⟩ (.write (some 200) [1] false .plain false) ∧
+    (serveSt true c ⟨true, false⟩ (.write (some 200) [1] false .plain false) st1).1 =
+      serve c ⟨true, false⟩ (.write (some 200) [1] false .plain false) := by decide
 
 /-- non-vacuity of the hypotheses of `C12_written_response_unaltered` / `C12_templates_outcomes` -/
 example : (tplOn full ⟨false, true⟩ && !false) = false ∧ (tplOn full ⟨true, true⟩ && !true) = false ∧
